@@ -317,6 +317,10 @@ type job struct {
 	Timing  string   `json:"timing"` // before | during | host
 	DelayUs int      `json:"delay_us"`
 	XMod    bool     `json:"xmod,omitempty"` // cross-module scenario: the entry module imports the looping one
+	// AppCause: the context is cancelled / times out with an application-level cause (context.WithCancelCause,
+	// WithDeadlineCause) and the call is made on a context DERIVED from it: ctx.Err() is still Canceled /
+	// DeadlineExceeded, which is what the documented exit codes are defined by.
+	AppCause bool `json:"app_cause,omitempty"`
 	Mods    []string `json:"mods,omitempty"`
 }
 
@@ -433,7 +437,12 @@ func runChild(path string) {
 	fn := mod.ExportedFunction(j.Entry)
 	switch j.Cause {
 	case "cancel", "close":
-		callCtx, cancel = context.WithCancel(bg)
+		if j.AppCause {
+			c, cc := context.WithCancelCause(bg)
+			callCtx, cancel = context.WithValue(c, appKey{}, 1), func() { cc(errAppCause) }
+		} else {
+			callCtx, cancel = context.WithCancel(bg)
+		}
 	case "deadline":
 		d := time.Duration(j.DelayUs) * time.Microsecond
 		if j.Timing == "before" {
@@ -441,7 +450,12 @@ func runChild(path string) {
 		} else if j.Timing == "host" {
 			d = 2 * time.Millisecond
 		}
-		callCtx, cancel = context.WithDeadline(bg, time.Now().Add(d))
+		if j.AppCause {
+			callCtx, cancel = context.WithDeadlineCause(bg, time.Now().Add(d), errAppCause)
+			callCtx = context.WithValue(callCtx, appKey{}, 1)
+		} else {
+			callCtx, cancel = context.WithDeadline(bg, time.Now().Add(d))
+		}
 	}
 	defer cancel()
 	switch j.Timing {
@@ -516,6 +530,10 @@ func runJob(j job, n int) outcome {
 	return o
 }
 
+type appKey struct{}
+
+var errAppCause = errors.New("application-level cause: service is shutting down")
+
 // expectedCode asks the model for the exit code of the cause.
 func expectedCode(j job) (uint32, bool) {
 	watcher := "1"
@@ -553,7 +571,7 @@ func predict(p *c07.Prog) prediction {
 // judge evaluates the property on one outcome.
 func judge(o outcome, p *c07.Prog, pred prediction, fixedTree bool) {
 	j := o.j
-	key := fmt.Sprintf("run/%s/%s/%s/%s/%s", j.Engine, j.Cause, j.Timing, j.Prog, j.Text)
+	key := fmt.Sprintf("run/%s/%s/%v/%s/%s/%s", j.Engine, j.Cause, j.AppCause, j.Timing, j.Prog, j.Text)
 	rep.Case(key)
 	rep.Count("run:" + j.Engine + ":" + j.Cause + ":" + j.Timing)
 	// The entry check makes a call with an already-done context return without running the guest.
@@ -633,7 +651,9 @@ func exitCodeGrid() {
 	p := &c07.Prog{Name: "idle", HostCB: []int{-1}, Funcs: [][]*c07.Ins{{{K: "op"}}}}
 	bin := p.Bytes()
 	for _, eng := range []string{"interpreter", "compiler"} {
-		for _, cause := range []string{"cancel", "deadline", "close"} {
+		for _, cause0 := range []string{"cancel", "deadline", "close", "cancel+app-cause", "deadline+app-cause"} {
+			cause := strings.TrimSuffix(cause0, "+app-cause")
+			app := cause != cause0
 			cs := []uint32{0}
 			if cause == "close" {
 				cs = codes
@@ -655,20 +675,32 @@ func exitCodeGrid() {
 				ctx := bg
 				switch cause {
 				case "cancel":
-					c2, cancel := context.WithCancel(bg)
-					cancel()
-					ctx = c2
+					if app {
+						c2, cc := context.WithCancelCause(bg)
+						cc(errAppCause)
+						ctx = context.WithValue(c2, appKey{}, 1)
+					} else {
+						c2, cancel := context.WithCancel(bg)
+						cancel()
+						ctx = c2
+					}
 				case "deadline":
-					c2, cancel := context.WithDeadline(bg, time.Now().Add(-time.Second))
-					defer cancel()
-					ctx = c2
+					if app {
+						c2, cancel := context.WithDeadlineCause(bg, time.Now().Add(-time.Second), errAppCause)
+						defer cancel()
+						ctx = context.WithValue(c2, appKey{}, 1)
+					} else {
+						c2, cancel := context.WithDeadline(bg, time.Now().Add(-time.Second))
+						defer cancel()
+						ctx = c2
+					}
 				case "close":
 					mod.CloseWithExitCode(bg, c)
 				}
 				_, cerr := mod.ExportedFunction("f0").Call(ctx, 0)
-				j := job{Prog: "idle", Engine: eng, Cause: cause, Code: c, Timing: "before"}
+				j := job{Prog: "idle", Engine: eng, Cause: cause, Code: c, Timing: "before", AppCause: app}
 				want, _ := expectedCode(j)
-				rep.Case(fmt.Sprintf("exitcode/%s/%s/%d", eng, cause, c))
+				rep.Case(fmt.Sprintf("exitcode/%s/%s/%d", eng, cause0, c))
 				rep.Count("exitcode-grid")
 				var ee *sys.ExitError
 				if !errors.As(cerr, &ee) || ee.ExitCode() != want || !mod.IsClosed() {
@@ -805,6 +837,7 @@ func main() {
 			for s := 0; s < nsched; s++ {
 				j := job{Prog: p.Name, Text: p.Text, Wasm: binHex, Entry: fmt.Sprintf("f%d", p.Entry), Arg: p.Arg, HostCB: p.HostCB, Engine: eng,
 					Cause: causes[r.Intn(3)], Timing: timings[r.Intn(3)], DelayUs: 200 + r.Intn(30000)}
+				j.AppCause = j.Cause != "close" && r.Intn(2) == 0
 				if j.Cause == "close" {
 					j.Code = codes[r.Intn(len(codes))]
 				}
